@@ -321,7 +321,7 @@ func (w *World) probeFuzzTx(a fuzzArgs, r *Rand) string {
 				if a.Kind == "bitmap-len" {
 					v.Voters = r.Bytes(1 + a.Pos%40)
 				} else {
-					v.Signature = v.Signature[:a.Pos%len(v.Signature)]
+					v.Signature = v.Signature[:a.Pos%(len(v.Signature)+1)]
 				}
 				setVote(c, &v)
 				if a.Kind == "drop-field" && r.Chance(0.5) {
@@ -337,7 +337,7 @@ func (w *World) probeFuzzTx(a fuzzArgs, r *Rand) string {
 						t.BlockHeaders = nil
 					}
 				case *bitcointypes.MsgFinalizeWithdrawal:
-					t.BlockHeader = t.BlockHeader[:a.Pos%81%maxInt(1, len(t.BlockHeader)+1)]
+					t.BlockHeader = t.BlockHeader[:a.Pos%(len(t.BlockHeader)+1)]
 				case *relayertypes.MsgNewVoterRequest:
 					t.VoterBlsKey = nil
 				}
